@@ -90,6 +90,19 @@ def make_case(rng):
 _LINES = []
 
 
+def _reentrant_lines(ctx, parser, lines):
+    for k, line in enumerate(lines):
+        if k % 2 == 0:
+            try:
+                parser.parse(lines[-1] + " " + lines[0], do_cleanup=False)
+            except llmon.BudgetExceeded:
+                raise
+            except Exception:
+                pass
+            ctx.count("parses_started_while_another_text_of_the_same_parser_is_read")
+        yield line
+
+
 def judge_parse(ctx, mon, cfg, parser, prods, start, toks, text, expected, smart, as_lines, case,
                 explicit_start=None):
     """parse one text; returns True/False (accepted?) or None (dropped)"""
@@ -110,6 +123,10 @@ def judge_parse(ctx, mon, cfg, parser, prods, start, toks, text, expected, smart
     try:
         # (lines come as the list or, every other time, as a one-shot iterator over it)
         src = text if not as_lines else _LINES if len(text) % 2 else iter(_LINES)
+        if as_lines and len(text) % 4 == 3:
+            # ... or as a generator that, between two lines, uses the SAME parser for something else (a caller
+            # that checks an included fragment while the outer text is being read)
+            src = _reentrant_lines(ctx, parser, list(_LINES))
         tree = parser.parse(src, do_cleanup=False, **kw)
     except llparser.ParsingError:
         ctx.count("rejected")
@@ -152,6 +169,13 @@ def add_any_token_except(rng, cfg, prods):
 def ctor_productions(cfg, prods, any_spec):
     """what the constructor gets: the productions, the expansion replaced by the AnyTokenExcept object"""
     if not any_spec:
+        text = gram.fmt_grammar(prods)
+        if len(text) % 4 == 1:
+            # one symbol's alternatives are given through a template object the caller wrote himself
+            sym = sorted(prods)[len(text) % len(prods)]
+            out = dict(prods)
+            out[sym] = llmon.VfAlternatives(prods[sym])
+            return out
         return prods
     sym, excluded = any_spec
     n_added = len([t for t in cfg.terminals if t not in excluded])
